@@ -315,16 +315,10 @@ func HandleSetFileInfo(cc *hotline.ClientConn, t *hotline.Transaction) (res []ho
 			if !cc.Authorize(hotline.AccessRenameFile) {
 				return cc.NewErrReply(t, "You are not allowed to rename files.")
 			}
-			fileDir, err := hotline.ReadPath(cc.FileRoot(), filePath, []byte{})
-			if err != nil {
-				return nil
-			}
-			hlFile.Name, err = txtDecoder.String(string(fileNewName))
-			if err != nil {
-				return res
-			}
+			// fullNewFilePath has been cleaned by ReadPath, so the new name cannot leave the file root.
+			hlFile.Name = filepath.Base(fullNewFilePath)
 
-			err = hlFile.Move(fileDir)
+			err = hlFile.Move(filepath.Dir(fullNewFilePath))
 			if os.IsNotExist(err) {
 				return cc.NewErrReply(t, "Cannot rename file "+string(fileName)+" because it does not exist or cannot be found.")
 			}
